@@ -13,7 +13,7 @@ where
 {
     let mut iter = 0;
     let mut x_curr = x_init;
-    let mut approx_err = 100_f64;
+    let mut approx_err;
     let polynomial = {
         match mode {
             SolveMode::Root => polynomial,
